@@ -74,6 +74,7 @@ __CPROVER_ensures(BLOCKED ==> (__CPROVER_return_value == HANDLED_TRUE && g_nproc
 __CPROVER_ensures((!BLOCKED && g_has_event_pool && info != process_info_event_pool && __CPROVER_old(self->m_event_processing)) ==> (g_ndefer == 1 && g_nproc == 0 && g_pool_runs == 0 && self->m_event_processing))   /*@ob C04.event-submitted-during-a-step-is-only-stored */
 __CPROVER_ensures((!BLOCKED && g_has_event_pool && info == process_info_direct_call && !__CPROVER_old(self->m_event_processing) && g_is_deferred_now) ==> (g_ndefer == 1 && g_nproc == 0 && __CPROVER_return_value == HANDLED_DEFERRED))   /*@ob C05.event-deferred-by-an-active-state-is-stored-not-dispatched */
 __CPROVER_ensures((!BLOCKED && !(g_has_event_pool && info != process_info_event_pool && (__CPROVER_old(self->m_event_processing) || (info != process_info_submachine_call && g_is_deferred_now))) && !g_exc) ==> (g_nproc == 1 && g_ndefer == 0 && !self->m_event_processing))   /*@ob C04,C12.one-step-then-machine-not-left-busy */
+__CPROVER_ensures((g_nproc == 1 && g_has_event_pool && info != process_info_event_pool) ==> self->event_pool.cur_seq_cnt == (uint16_t)(__CPROVER_old(self->event_pool.cur_seq_cnt) + 1))   /*@ob C05.every-step-a-machine-takes-starts-a-new-deferral-cycle-of-its-own-pool-whoever-called-it */
 __CPROVER_ensures((g_nproc == 1 && !g_exc && g_has_event_pool && info != process_info_event_pool) ==> g_pool_runs == 1)                        /*@ob C04,C10.pending-events-processed-after-the-step */
 __CPROVER_ensures((g_nproc == 1 && !g_no_exception_thrown && g_threw) ==> (g_exc_caught == 1 && __CPROVER_return_value == HANDLED_FALSE))     /*@ob C12.caught-exception-means-event-not-handled */
 __CPROVER_ensures((g_nproc == 1 && !g_threw && !g_exc) ==> (int)__CPROVER_return_value == g_handled)
